@@ -72,6 +72,31 @@ fn gen_s1(rng: &mut Rng, n: usize, nullp: u64) -> StructArray {
     StructArray::try_new(fields, vec![Arc::new(l) as ArrayRef], Some(nulls)).unwrap()
 }
 
+/// number of valid (non-null) leaf values of a nested list/struct column
+fn valid_leaves(a: &ArrayRef) -> usize {
+    match a.data_type() {
+        DataType::List(_) => {
+            let l = a.as_any().downcast_ref::<ListArray>().unwrap();
+            // only the values referenced by valid lists count
+            let mut n = 0;
+            for i in 0..l.len() {
+                if l.is_valid(i) {
+                    n += valid_leaves(&l.value(i));
+                }
+            }
+            n
+        }
+        DataType::Struct(_) => {
+            let s = a.as_any().downcast_ref::<StructArray>().unwrap();
+            let c = s.column(0);
+            let idx: Vec<u64> = (0..s.len()).filter(|i| s.is_valid(*i)).map(|i| i as u64).collect();
+            let taken = arrow_select::take::take(c.as_ref(), &UInt64Array::from(idx), None).unwrap();
+            valid_leaves(&taken)
+        }
+        _ => a.len() - a.null_count(),
+    }
+}
+
 /// logical comparison (nulls compare equal regardless of what lies behind them)
 fn same(a: &ArrayRef, b: &ArrayRef) -> bool {
     if a.len() != b.len() || a.data_type() != b.data_type() {
@@ -134,15 +159,17 @@ pub fn run(sink: &mut Sink, rng: &mut Rng, quick: bool) {
         let tname = ["list<int32>", "list<list<int32>>", "struct<list<int32>>"][kind];
         let case = json!({"e2e": tname, "rows": n, "null_pct": nullp, "version": version.to_string(), "take": take_idx.clone()});
         sink.count(&format!("e2e:{}", ["list", "list-list", "struct-list"][kind]));
+        // a page without any valid leaf value takes the complex-all-null layout (known finding)
+        let class = if valid_leaves(&col) == 0 { sink.count("e2e:no-valid-leaf"); Some("complex_all_null_page_rows_as_levels") } else { None };
         let r = rt.block_on(async {
             let h = tokio::spawn(roundtrip(col, version, take_idx));
             h.await
         });
         match r {
             Ok(Ok(bad)) if bad.is_empty() => sink.oracle_ok(),
-            Ok(Ok(bad)) => sink.oracle_fail(None, &format!("e2e write/read of a nested column differs: {}", bad.join("; ")), case),
-            Ok(Err(e)) => sink.oracle_fail(None, &format!("e2e write/read of a nested column fails: {}", e.chars().take(200).collect::<String>()), case),
-            Err(e) => sink.oracle_fail(None, &format!("e2e write/read of a nested column panics: {}", e.to_string().chars().take(200).collect::<String>()), case),
+            Ok(Ok(bad)) => sink.oracle_fail(class, &format!("e2e write/read of a nested column differs: {}", bad.join("; ")), case),
+            Ok(Err(e)) => sink.oracle_fail(class, &format!("e2e write/read of a nested column fails: {}", e.chars().take(200).collect::<String>()), case),
+            Err(e) => sink.oracle_fail(class, &format!("e2e write/read of a nested column panics: {}", e.to_string().chars().take(200).collect::<String>()), case),
         }
     }
     // ---- re-confirmation of the findings through the file format (corpus, class tagged)
@@ -155,6 +182,26 @@ pub fn run(sink: &mut Sink, rng: &mut Rng, quick: bool) {
         match r {
             Ok(Ok(bad)) if bad.is_empty() => sink.oracle_ok(),
             other => sink.oracle_fail(Some("allvalid_list_over_nullable_items"), &format!("e2e: all-valid list over nullable items does not round trip: {:?}", other).chars().take(300).collect::<String>(), case),
+        }
+    }
+    // complex all-null page: rows with more than one level entry
+    {
+        let mut b = ListBuilder::new(ListBuilder::new(Int32Builder::new()));
+        b.values().append(true);
+        b.values().append(false);
+        b.append(true);
+        b.append(false);
+        b.append(true);
+        let c: ArrayRef = Arc::new(b.finish());
+        for version in versions {
+            let case = json!({"e2e": "list<list<int32>> [[[],null],null,[]] (no valid leaf value)", "version": version.to_string()});
+            let cc = c.clone();
+            let r = rt.block_on(async { tokio::spawn(roundtrip(cc, version, vec![0, 2])).await });
+            sink.count("e2e:corpus-complex-all-null");
+            match r {
+                Ok(Ok(bad)) if bad.is_empty() => sink.oracle_ok(),
+                other => sink.oracle_fail(Some("complex_all_null_page_rows_as_levels"), &format!("e2e: complex all-null page loses rows: {:?}", other).chars().take(300).collect::<String>(), case),
+            }
         }
     }
     // F21: list<struct{p: int32?}> with an empty list, null struct items and null leaves
